@@ -499,7 +499,8 @@ class LiveWorld:
         self.clients = []
         for i in range(n_clients):
             tl = transaction_limit[i] if isinstance(transaction_limit, (list, tuple)) else transaction_limit
-            kw = {"paper_trade": True} if paper else {}
+            paper_i = paper[i] if isinstance(paper, (list, tuple)) else paper  # (a list: live and paper-trading clients side by side)
+            kw = {"paper_trade": True} if paper_i else {}
             self.clients.append(clients.BetfairClient(FakeAPI(self.exchange, (usernames or ["live%d" % j for j in range(n_clients)])[i]), order_stream=False, transaction_limit=tl, **kw))
             if commissions:
                 self.clients[-1].commission_base = commissions[i]
@@ -511,7 +512,7 @@ class LiveWorld:
         self.executor = ControlledExecutor()
         self.on_sleep = None  # one-shot callable(seconds): main-loop work done while a paper-trading call sleeps its latency
         self.fw.betfair_execution._thread_pool = self.executor
-        if paper:
+        if (any(paper) if isinstance(paper, (list, tuple)) else paper):
             # paper trading: the simulated execution runs its calls on its pool after sleeping the latency
             import flumine.execution.simulatedexecution as _se
 
